@@ -1,6 +1,10 @@
 """Run compiled programs on the virtual loop and collect observations."""
 import asyncio
+import contextlib
 import copy
+import os
+import signal
+import threading
 
 from verifkit import runtime as R
 from verifkit import vloop as V
@@ -19,6 +23,34 @@ def make_chooser(sched):
     if k == 'delay':
         return V.DelayChooser(sched['node'], sched.get('after', 0))
     raise ValueError(sched)
+
+
+CPU_BUDGET_S = int(os.environ.get('VK_CPU_BUDGET', '15'))
+
+
+class CpuBudgetExceeded(KeyboardInterrupt):
+    """derives from KeyboardInterrupt: asyncio re-raises it out of Task steps and callbacks instead of storing it"""
+    pass
+
+
+@contextlib.contextmanager
+def cpu_budget(seconds):
+    """raise CpuBudgetExceeded when the process has consumed `seconds` of CPU time inside the block (ITIMER_VIRTUAL
+    counts user CPU time of this process only, so machine load or a suspended process never triggers it)"""
+    if threading.current_thread() is not threading.main_thread():
+        yield
+        return
+
+    def handler(signum, frame):
+        raise CpuBudgetExceeded()
+
+    old = signal.signal(signal.SIGVTALRM, handler)
+    signal.setitimer(signal.ITIMER_VIRTUAL, seconds)
+    try:
+        yield
+    finally:
+        signal.setitimer(signal.ITIMER_VIRTUAL, 0)
+        signal.signal(signal.SIGVTALRM, old)
 
 
 class RunHandle:
@@ -107,7 +139,12 @@ class Session:
     def drive(self):
         asyncio.set_event_loop(None)
         try:
-            self.status = self.loop.drive()
+            with cpu_budget(CPU_BUDGET_S):
+                self.status = self.loop.drive()
+        except CpuBudgetExceeded:
+            # one engine run normally costs milliseconds of CPU; the step budget bounds loop iterations, this bounds a
+            # single callback that never returns (e.g. an endless loop inside the engine). CPU time, not wall clock.
+            self.status = 'cpu-limit'
         except BaseException as e:  # noqa: BLE001 - e.g. Fatal escaping through a callback
             self.status = 'loop-raised'
             self.loop_exc = e
@@ -122,7 +159,18 @@ class Session:
             return
         self.closed = True
         try:
-            self.loop.shutdown_case()
+            try:
+                with cpu_budget(5):
+                    self.loop.shutdown_case()
+            except CpuBudgetExceeded:
+                # a runaway callback does not let the cancelled tasks finish: drop everything
+                self.loop._ready.clear()
+                self.loop._scheduled.clear()
+                if not self.loop.is_closed():
+                    try:
+                        self.loop.close()
+                    except BaseException:  # noqa: BLE001
+                        pass
         finally:
             t, p = self._regs
             t._pool_executor, p._pool_executor, p._process_manager = self._saved
